@@ -309,7 +309,7 @@ fn run_one(c: &Case) -> Result<(), Failure> {
 				ensure!((out[i].left as f64 - wl).abs() <= tol && (out[i].right as f64 - wr).abs() <= tol, "delay-echoes-at-multiples-shaped-by-feedback", "delay of {d} frames ({time_s:.6} s at {sr} Hz), feedback {feedback_db:.2} dB, mix {mix:.3}, feedback effects {inner:?}: frame {i} = ({}, {}), reference delay line gives ({wl}, {wr})", out[i].left, out[i].right);
 			}
 		}
-		Case::Reverb { sr, feedback, damping, width, mix, n } => {
+		Case::Reverb { sr, feedback, damping, width, mix, n: _ } => {
 			let spec = FxSpec::Reverb { feedback: *feedback, damping: *damping, stereo_width: *width, mix: *mix };
 			let sig = crate::scene::signal::SigSpec {
 				kind: crate::scene::signal::SigKind::Sparse,
@@ -321,7 +321,7 @@ fn run_one(c: &Case) -> Result<(), Failure> {
 			// 2000 frames of sparse impulses, then silence: two windows of the longest comb period
 			// (times two) show the decay of the tail
 			let win = (3600.0 * *sr as f64 / 44100.0) as usize;
-			let n = &(2000 + 2 * win + 16);
+			let n = &(2000 + 3 * win + 16);
 			let _ = n;
 			let mut input = render_sig(&sig, *n);
 			for f in input.iter_mut().skip(2000) {
@@ -354,7 +354,7 @@ fn run_one(c: &Case) -> Result<(), Failure> {
 			}
 			for i in 0..*n {
 				let x = (input[i].left as f64 + input[i].right as f64) * 0.015;
-				let mut run = |cs: &mut Vec<Comb>, aps: &mut Vec<Ap>| -> f64 {
+				let run = |cs: &mut Vec<Comb>, aps: &mut Vec<Ap>| -> f64 {
 					let mut acc = 0.0;
 					for c in cs.iter_mut() {
 						let o = c.buf[c.i];
@@ -383,8 +383,9 @@ fn run_one(c: &Case) -> Result<(), Failure> {
 			// decays for feedback below 1
 			if *feedback < 0.9 && *mix > 0.1 {
 				let rms = |a: usize| (out[a..a + win].iter().map(|f| (f.left as f64).powi(2) + (f.right as f64).powi(2)).sum::<f64>() / win as f64).sqrt();
-				let (early, late) = (rms(2008), rms(2008 + win));
-				ensure!(late <= early * 1.02 + 1e-9, "reverb-decays", "reverb tail grows: rms {early:e} in the first {win} frames after the input ends, {late:e} in the next {win} (feedback {feedback:.3})");
+				// the first window after the input ends still receives first echoes: compare the next two
+				let (early, late) = (rms(2008 + win), rms(2008 + 2 * win));
+				ensure!(late <= early * 1.02 + 1e-9, "reverb-decays", "reverb tail grows: rms {early:e} in frames {win}..{} after the input ends, {late:e} in the following {win} (feedback {feedback:.3})", 2 * win);
 			}
 		}
 		Case::Compressor { sr, threshold, ratio, attack_s, release_s, level_db } => {
